@@ -25,6 +25,14 @@ def gen(rng):
                 st['l1only'] = True
         return [st for st in h if st['op'] not in ('sameas', 'unchanged', 'chkbits', 'sameas_if')]
     h = gens.gen_c01_history(rng, max_steps=8)
+    if rng.random() < 0.25:
+        # the map read back from a file (its arrays do not own their memory), then grown twice
+        mk = h[0]
+        h.append(dict(op='wr', h=0, out=1, compress=rng.random() < 0.5, pixels=None))
+        h.append(dict(op='ifexists', h=1))
+        for _ in range(2):
+            h.append(dict(op='grow', h=1, which=rng.randrange(5), off=rng.randrange(16), alt=rng.randrange(40)))
+            h.append(dict(op='check', h=1))
     for st in h:
         if st['op'] == 'check':
             st['what'] = ['raw', 'layout', 'cov']
